@@ -222,6 +222,21 @@ async fn single_case(i: usize, k: usize, c: &Value, eps: &mut HashMap<String, En
 			}
 		}
 	}
+	// the same reply once more from a result that is a live view of growing state (`live`): whatever the writer measured, what
+	// goes out must be within the limit (or the -32008 replacement)
+	if kind == "result" && content == "ascii" && total <= m {
+		for tr in ["http", "ws"] {
+			let text = format!(r#"{{"jsonrpc":"2.0","id":{idt},"method":"live","params":[{plen},"ascii"]}}"#);
+			if let Ok(frames) = exchange(ep, tr, &text, &format!("q{i}")).await {
+				for f in &frames {
+					let v: Value = serde_json::from_str(f).unwrap_or(Value::Null);
+					if f.len() > m && v["error"]["code"] != json!(-32008) {
+						probs.push((format!("resp:{tr}:single:oversize-frame-on-wire:result-changed-while-written"), json!({"len": f.len(), "limit": m})));
+					}
+				}
+			}
+		}
+	}
 	let d = json!({"case": c, "problems": probs.iter().map(|p| p.1.clone()).collect::<Vec<_>>()});
 	out.problems(i, k, probs.into_iter().map(|(k2, _)| (k2, d.clone())).collect(), Value::Null);
 }
